@@ -333,7 +333,7 @@ impl Stage for Replies {
         "replies"
     }
     fn cases(&self, tier: Tier) -> u32 {
-        tier.pick(8000, 100_000)
+        tier.pick(8000, 400_000)
     }
     fn strategy(&self, _t: Tier) -> BoxedStrategy<Case> {
         (
